@@ -43,6 +43,20 @@ var c10multi = []string{
 	`{"swagger":"2.0","info":{"title":"t","version":"1"},"paths":{"/a":{"get":{"operationId":"g","parameters":[{"name":"q","in":"query","type":"integer","default":"x"},{"name":"r","in":"query","type":"string","default":1}],"responses":{"200":{"description":"ok","schema":{"$ref":"#/definitions/A"},"headers":{"X-A":{"type":"integer","default":"h"},"X-B":{"type":"boolean","default":3}}}}}}},"definitions":{"A":{"type":"object","properties":{"n":{"type":"integer","default":"bad","example":"bad"},"m":{"type":"string","default":5},"o":{"type":"boolean","example":7}}}}}`,
 }
 
+// c10triggers are validated before the document under test in the "after-other" history.
+var c10triggers = []string{
+	c04specInvalid,
+	`{"swagger":"2.0","info":{"title":"t","version":"1"},"paths":{"/a":{"get":{"operationId":"g","responses":{"200":{"description":"ok"}}}}},"definitions":{"Base":{"type":"object","properties":{"n":{"type":"string"}}},"Bad":{"allOf":[{"$ref":"#/definitions/Base"},{"$ref":"#/definitions/Nowhere"},{"type":"object","properties":{"n":{"type":"string"}}}]},"Worse":{"allOf":[{"$ref":"#/definitions/Bad"},{"type":"object","properties":{"n":{"type":"integer"}}}]}}}`,
+	c10multi[1], c10multi[3],
+}
+
+func init() {
+	// a valid document whose path item declares a body parameter with a $ref'd schema (shared by
+	// its operations) and operation-level parameters with $ref'd schemas
+	c10multi = append(c10multi,
+		`{"swagger":"2.0","info":{"title":"t","version":"1"},"paths":{"/a":{"parameters":[{"name":"body","in":"body","schema":{"$ref":"#/definitions/X"}}],"post":{"operationId":"p","responses":{"200":{"description":"ok","schema":{"$ref":"#/definitions/Y"}}}},"put":{"operationId":"u","responses":{"200":{"description":"ok"}}}}},"definitions":{"X":{"type":"object","properties":{"n":{"type":"integer"}}},"Y":{"type":"object","properties":{"x":{"$ref":"#/definitions/X"}}}}}`)
+}
+
 var reCycle = regexp.MustCompile(`definition "([^"]+)" has circular ancestry: \[([^\]]*)\]`)
 
 // c10normalise renders a message set canonically: circular-ancestry messages name whichever member
@@ -219,10 +233,19 @@ func c10run(docText string, ex c10exec, cycles map[string]string) (o c10out) {
 	verifrt.SetMapPolicy(ex.Policy)
 	text := reorder(docText, ex.Reverse)
 	if ex.History == "after-other" {
-		if other, err := loads.Analyzed(json.RawMessage(c04specInvalid), ""); err == nil {
-			sv := validate.NewSpecValidator(other.Schema(), strfmt.Default)
-			sv.SetContinueOnErrors(!ex.Cont)
-			sv.Validate(other)
+		// other documents validated before: ones that take the rare paths of the rules (several
+		// findings per rule, dangling references inside allOf, cycles) in both modes
+		for _, o := range c10triggers {
+			for _, cont := range []bool{true, false} {
+				if other, err := loads.Analyzed(json.RawMessage(o), ""); err == nil {
+					func() {
+						defer func() { recover() }()
+						sv := validate.NewSpecValidator(other.Schema(), strfmt.Default)
+						sv.SetContinueOnErrors(cont)
+						sv.Validate(other)
+					}()
+				}
+			}
 		}
 	}
 	doc, err := c10load(text, ex.Load)
